@@ -41,7 +41,9 @@ CHECKS = {
         text='Queue merges from an arbitrary symbolic repository with symbolic build statuses: whenever a destination moves, its new '
              'tip must be a commit whose status is SUCCESSFUL (tip identity is tracked: a fast-forward keeps the built commit, a merge '
              'commit is a fresh, never-built commit) unless force-merged. Direct merges in skip_queue_when_not_needed mode run the real '
-             'check_in_sync, check_build_status, build_queue_collection, is_needed and merge_integration_branches in the handler order.' + HIST,
+             'check_in_sync, check_build_status, build_queue_collection, is_needed and merge_integration_branches in the handler order. '
+             'Queues with hotfix / stabilization / major branches: the concrete-graph queues of C05 (real add_to_queue per pull request, '
+             'symbolic statuses, real handle_merge_queues) under the same clause (DESIGN 12).' + HIST,
         note='Cut: update_integration_branches (needs git log) - paths that are not in sync are dropped. The longest-green-prefix '
              'clause is decided in C05.',
         design='3/C03', technique=TECH_GIT),
@@ -88,7 +90,9 @@ CHECKS = {
              'are strings rendered from symbolic numbers and parsed back by the real regex. z3 decides, per path, target set, '
              'order, ignored set, fix versions and rejection class against the statement for all numbers (orderings and '
              'coincidences between lines included). Structure (2-4 branches, 0-3 tags, insertion orders, destination) is '
-             'enumerated. Plus CrossHair ordering lemmas (unbounded) and the tag language by rx2z3.',
+             'enumerated. Plus CrossHair ordering lemmas (unbounded) and the tag language by rx2z3. Histories (DESIGN 11, 12): the cascade of a '
+             'job depends on the tags / branches that exist now (a tag deleted on the host with a mirror cache; a stabilization branch deleted '
+             'between two evaluations on one long-lived server, observed through the ticket gate).',
         note='TInt payload handling is validated by replaying a witness of sampled paths through the unshadowed code on real '
              'branch names against an independent plain-Python oracle. validate() version-mismatch rules are outside.',
         design='3/C09', technique=TECH + '; CrossHair contracts; regex inclusion in z3'),
@@ -120,7 +124,9 @@ CHECKS = {
         text='(a) real process_task/process with a handler raising each exception kind (incl. an exception whose __str__ raises): '
              'returns, job recorded done with its status, marker cleared, next job still served. (b) real put_job and job __eq__ '
              'on symbolic keys as a rely/guarantee step with interference (worker get / concurrent put) at every shared access: '
-             'an accepted event stays owed unless an equal job is pending or its evaluation started after acceptance.',
+             'an accepted event stays owed unless an equal job is pending or its evaluation started after acceptance. (c) histories with `serve` '
+             'events (put_job + the real process_task), a vanished scratch directory; (d) requests that only read leave the pending jobs '
+             'and their order alone (DESIGN 12).',
         note='Partial: interleavings are at the granularity of put_job\'s shared accesses, not bytecode; Flask threading is outside.',
         design='3/C13', technique=TECH),
     'C14': dict(
@@ -129,7 +135,9 @@ CHECKS = {
              'identity are symbolic and pr ids are symbolic integers; branch names are solver-drawn members and near-misses of '
              'the accepted grammar. z3 decides per path: job enqueued iff authorised (admin-only set taken from the statement) '
              'and parameters valid; refusal has an error status; the job carries the validated parameters. rx2z3 lemma: the API '
-             'branch grammar is within the GWF destination classes.',
+             'branch grammar is within the GWF destination classes. Webhook deliveries: credential pairs around the configured pair, the '
+             'payload naming its repository / not naming it (absent, null, empty, no identity). Requests that only read (every GET view, '
+             '0-3 pending jobs) change neither the pending jobs nor their order (DESIGN 12).',
         note='Partial: werkzeug routing, OAuth login and webhook payload schema validation are outside; management forms are '
              'checked for their gate attribute only. Every cell is also re-run concretely (witness replay).',
         design='3/C14', technique=TECH),
@@ -187,7 +195,7 @@ CHECKS['C10'] = dict(
          'jobs on the symbolic repository (no-queue / queue / skip-queue; after queueing, after a source push, after a decline, commit '
          'events on source and integration tips, another held pull request evaluated in between) the same event is delivered five '
          'times: the 4th and 5th job make no ref update and no host write, no message is posted twice in a row, and a freshly started '
-         'server gives the same outcome, ref updates and host writes as the long-lived one.',
+         'server gives the same outcome, ref updates and host writes as the long-lived one; also while every push fails (git host down).',
     note='Partial: _reset is a stub in the comment-history part; the repository-state part is bounded to the listed histories '
          '(2 targets, 1-2 PRs, <= 9 jobs; git log answers empty).',
     design='3/C10', technique=TECH)
@@ -225,7 +233,8 @@ CHECKS['C20'] = dict(
          'queued PRs / live stabilization / archived and otherwise tags the deleted tip first; refusing jobs leave the remote '
          'untouched; queue jobs touch only q/* and rebuild re-submits exactly the queued PRs. Hotfix branches with several hotfix queues. '
          'Histories (DESIGN 11): the jobs also run in states reached by the real handler (pull requests queued by real evaluations): '
-         'delete a targeted / an untargeted branch, create an intermediate / the newest branch, rebuild with two PRs queued.',
+         'delete a targeted / an untargeted branch, create an intermediate / the newest branch, rebuild with two PRs queued (queue order not '
+         'the id order). The order of re-submission is carried by the task queue: requests that only read must not reorder it (DESIGN 12).',
     note='Partial: bounded to the listed configurations and histories. One witness per configuration is re-run on a real repository '
          'with /usr/bin/git (outcome and remote change compared).',
     design='3/C20', technique=TECH_GIT)
